@@ -5,6 +5,7 @@ SV / SArr / SObj.  Paths are explored by re-execution with a decision prefix.  L
 symbolic trip count are cut with sidecar invariants (Hoare rule), never unrolled "up to k".
 """
 import ast
+import pathlib as _pathlib
 import builtins
 import importlib
 import inspect
@@ -346,6 +347,8 @@ class Interp:
         return self.native(fn, args, kwargs)
 
     def native(self, fn, args, kwargs):
+        if fn is _pathlib.Path and len(args) == 1 and not kwargs and type(args[0]).__name__ == "GhostPath":
+            return args[0]          # Path(p) of a path is that path (the ghost file system's paths stand for pathlib.Path objects)
         if getattr(getattr(fn, "__self__", None), "_pyvc_ok", False) or getattr(fn, "_pyvc_ok", False):
             # ghost objects of the engine (files, paths, stubs) take symbolic arguments
             try:
